@@ -1,5 +1,6 @@
 import AmrK.TasteDataProofs
 import AmrK.HeaderCodec
+import AmrK.ChkHeaderProofs
 import AmrK.NamesMore
 import AmrK.CellHCodec
 import AmrK.WritersSizes
@@ -91,6 +92,38 @@ theorem extrema_nan (l : List Extrema.V) (h : Extrema.V.nan ∈ l) :
    Extrema.reduce_nan _ (by intro x; cases x <;> rfl) (by intro x; cases x <;> rfl) l h⟩
 
 example : TasteData.fabExtrema ([0,0,0,0,0,0,0xF0,0x3F] ++ [0,0,0,0,0,0,0x08,0xC0]) 2 0 = some (.fin (-3), .fin 1) := by
+  decide +kernel
+
+/-- **the converted plotfile's grid is the checkpoint's**: the level-0 grid size the reader derives (`ChkHeader.gridSize0`, part of
+    the reading `ChkHeader.parse` that the driver runs on the Header of every generated checkpoint and that is compared with the
+    real reader's attributes) is, in every direction, the largest upper index of the level-0 boxes plus one - at least every
+    box's, reached by some box - so it does not depend on the order in which the checkpoint lists its boxes -/
+theorem grid_size_is_largest_upper_index (d : Nat) (boxes : List (List Int × List Int)) (hne : boxes ≠ [])
+    (hd : ∀ b ∈ boxes, b.2.length = d) :
+    ∃ g, ChkHeader.gridSize0 boxes = some g ∧ g.length = d ∧ ∀ k, k < d →
+      (∀ b ∈ boxes, ChkHeader.at' b.2 k + 1 ≤ ChkHeader.at' g k) ∧ ∃ b ∈ boxes, ChkHeader.at' g k = ChkHeader.at' b.2 k + 1 :=
+  ChkHeader.gridSize0_spec d boxes hne hd
+
+theorem grid_size_order_independent (d : Nat) (b1 b2 : List (List Int × List Int)) (hne : b1 ≠ [])
+    (hmem : ∀ b, b ∈ b1 ↔ b ∈ b2) (hd : ∀ b ∈ b1, b.2.length = d) : ChkHeader.gridSize0 b1 = ChkHeader.gridSize0 b2 :=
+  ChkHeader.gridSize0_order_independent d b1 b2 hne hmem hd
+
+/-- **the checkpoint's time, partial**: the reading reports the token of the time line exactly when that token's value is not
+    integral; when it is integral the reader takes the line for an optional integer line and reports the NEXT line's token
+    (the known finding `chk2plt-integral-time`: the on-disk format does not distinguish the two) -/
+theorem time_read_partial (v l1 l2 l3 : Py.Bytes) (rest : List Py.Bytes) (P : ChkHeader.Parsed)
+    (h : ChkHeader.parse (v :: l1 :: l2 :: l3 :: rest) = some P) :
+    (ChkHeader.integral l3 = false → P.time = Py.strip l3) ∧
+    (ChkHeader.integral l3 = true → ∃ t r, rest = t :: r ∧ P.time = Py.strip t) :=
+  ChkHeader.time_rule v l1 l2 l3 rest P h
+
+/-- the full statement fails: a well-formed header whose time is `2.0` is not read (every later line is taken one line too
+    early and the constructor raises), the same header with time `2.5` is read with that time and the grid `8 x 8 x 4` -/
+theorem integral_time_not_read :
+    let hdr (t : String) : List Py.Bytes := ["Checkpoint version: 1", "0", "7", t, "1e-06", "2e-06", "0.0 0.0 0.0 ", "1.0 1.0 0.5 ",
+      "(2 0", "((0,0,0) (3,7,3) (0,0,0))", "((4,0,0) (7,7,3) (0,0,0))", ")", "101325.0", "0", "0"].map Py.ofString
+    ChkHeader.parse (hdr "2.0") = none ∧
+    (ChkHeader.parse (hdr "2.5")).map (fun P => (P.time, P.gridSizes)) = some (Py.ofString "2.5", [[8, 8, 4]]) := by
   decide +kernel
 
 end C17
